@@ -177,6 +177,7 @@ Rule(e) ==
       [] e.op = "iter" -> IterOK(S(e, 1), e.w, e.ret.calls)
       [] e.op = "from_biguint"  -> PostIs1(e, OfSignMag(e.sgn, S(e, 1)))
       [] e.op = "clone"         -> PostIs1(e, S(e, 1))
+      [] e.op = "arbitrary"     -> TRUE      \* any value may be generated; the representation rule (NonCanon) is what is asked
       [] e.op \in {"add", "checked_add"} -> PostIs1(e, AddR(A(e, 1), A(e, 2)))
       [] e.op \in {"sub", "checked_sub"} -> PostIs1(e, SubR(A(e, 1), A(e, 2)))
       [] e.op \in {"mul", "checked_mul"} -> PostIs1(e, MulR(A(e, 1), A(e, 2)))
